@@ -27,6 +27,28 @@ def fmt_ts(sec, nanos=0, offset_min=None, frac=0, sep="T"):
     return s
 
 
+# the same window spelled in different ways: zone-less under -t +00:00; with an explicit numeric offset on the value;
+# zone-less under a non-UTC --tz-offset (name, offset minutes, offset written on the value?)
+WINDOW_SPELLINGS = [("utc-naive", 0, False), ("+01:00", 60, True), ("-08:00", -480, True), ("+05:30", 330, True),
+                    ("t-08:00", -480, False), ("t+05:30", 330, False), ("t+13:45", 825, False)]
+
+
+def window_argv(a, b, spelling, frac=6):
+    """argv for the window [a, b] (each (sec, nanos) or None) in the given spelling, INCLUDING the --tz-offset option
+    (call run_s4 with tz_args=False).  The instants are the same in every spelling."""
+    name, off, explicit = spelling
+    sign = "+" if off >= 0 else "-"
+    argv = ["--tz-offset=%s%02d:%02d" % (sign, abs(off) // 60, abs(off) % 60)] if not explicit else ["--tz-offset=+00:00"]
+    for opt, v in (("-a", a), ("-b", b)):
+        if v is None:
+            continue
+        if explicit:
+            argv += [opt, fmt_ts(v[0], v[1], off, frac)]
+        else:
+            argv += [opt, fmt_ts(v[0] + off * 60, v[1], None, frac)]
+    return argv
+
+
 def ts_fields(sec, offset_min=0):
     t = time.gmtime(sec + offset_min * 60)
     return t
